@@ -2,9 +2,128 @@ package main
 
 import (
 	"fmt"
-	_ "golang.org/x/tools/go/packages"
-	_ "golang.org/x/tools/go/ssa"
-	_ "golang.org/x/tools/go/ssa/ssautil"
+	"os"
+	"sort"
+	"strings"
 )
 
-func main() { fmt.Println("ok") }
+func usage() {
+	fmt.Fprintln(os.Stderr, `usage:
+  govc dump <pkgpattern> <funcname>          print naive-form SSA
+  govc vc <pkgpatterns,comma> <funckey|lemma:name>...   generate and discharge obligations of functions (development)
+  govc check <propfile.json> [quick|thorough]  run a property check`)
+	os.Exit(2)
+}
+
+func main() {
+	if len(os.Args) < 2 {
+		usage()
+	}
+	switch os.Args[1] {
+	case "dump":
+		cmdDump(os.Args[2], os.Args[3])
+	case "vc":
+		cmdVC(os.Args[2], os.Args[3:])
+	case "check":
+		tier := "quick"
+		if len(os.Args) > 3 {
+			tier = os.Args[3]
+		}
+		os.Exit(cmdCheck(os.Args[2], tier))
+	default:
+		usage()
+	}
+}
+
+func repoDir() string {
+	if d := os.Getenv("GOVC_REPO"); d != "" {
+		return d
+	}
+	return "/repo"
+}
+func libDir() string {
+	if d := os.Getenv("GOVC_LIB"); d != "" {
+		return d
+	}
+	return "/verif/contracts/lib"
+}
+
+func cmdDump(pat, name string) {
+	w, err := loadWorld(repoDir(), libDir(), strings.Split(pat, ","), nil)
+	if err != nil {
+		fmt.Fprintln(os.Stderr, err)
+		os.Exit(1)
+	}
+	for _, k := range w.funcKeys() {
+		fn := w.funcs[k]
+		if fn.Name() == name || k == name || shortKey(k) == name {
+			fmt.Println("# key:", shortKey(k))
+			fn.WriteTo(os.Stdout)
+		}
+	}
+}
+
+func cmdVC(pat string, keys []string) {
+	debugPanics = os.Getenv("GOVC_DEBUG") != ""
+	w, err := loadWorld(repoDir(), libDir(), strings.Split(pat, ","), nil)
+	if err != nil {
+		fmt.Fprintln(os.Stderr, err)
+		os.Exit(1)
+	}
+	fmt.Printf("loaded in %v\n", w.LoadTime)
+	dir := os.Getenv("GOVC_OUT")
+	if dir == "" {
+		dir = "/var/tmp/govc_vc"
+	}
+	os.MkdirAll(dir, 0755)
+	var frs []*FuncResult
+	for _, k := range keys {
+		if strings.HasPrefix(k, "lemma:") {
+			frs = append(frs, verifyLemma(w, k[6:]))
+		} else {
+			frs = append(frs, verifyFunc(w, expandKey(k)))
+		}
+	}
+	solveAll(dir, frs, 10, os.Getenv("GOVC_ALL") != "", 8)
+	bad := 0
+	for _, fr := range frs {
+		fmt.Printf("== %s  (gen %d ms, %d obligations)\n", fr.Short, fr.GenMs, len(fr.Obls))
+		for _, e := range fr.Errs {
+			fmt.Println("   ERROR:", e)
+			bad++
+		}
+		sort.SliceStable(fr.Obls, func(i, j int) bool { return false })
+		for _, o := range fr.Obls {
+			mark := "ok "
+			if !o.ok() {
+				mark = "FAIL"
+				bad++
+			}
+			fmt.Printf("   %s %-70s %s by %s in %d ms (expect %s)\n", mark, o.Name, o.Result, o.Solver, o.Ms, o.Expect)
+			if !o.ok() {
+				fmt.Printf("        src: %s\n        file: %s\n", o.Src, o.File)
+				if o.Model != "" {
+					fmt.Printf("        model: %s\n", strings.ReplaceAll(o.Model, "\n", " "))
+				} else if o.Output != "" {
+					out := firstLines(o.Output, 4)
+					if len(out) > 400 {
+						out = out[:400]
+					}
+					fmt.Printf("        out: %s\n", out)
+				}
+			}
+		}
+		if len(fr.Notes) > 0 {
+			fmt.Println("   notes:", strings.Join(fr.Notes, "; "))
+		}
+		if len(fr.Trusted) > 0 {
+			fmt.Println("   trusted:", strings.Join(fr.Trusted, ", "))
+		}
+		if len(fr.Inlined) > 0 {
+			fmt.Println("   inlined:", strings.Join(fr.Inlined, ", "))
+		}
+	}
+	if bad > 0 {
+		os.Exit(1)
+	}
+}
